@@ -467,6 +467,34 @@ class Check:
         self.corr["mismatches"] += len(mism)
         name = "correspondence %s: model = implementation on %d cases%s" % (meta["driver"], ncases, (" [%s]" % label) if label else "")
         self.oblige(name, "correspondence", not bad, "%d disagreeing cases" % len(mism) if mism else "")
+        # search for a failing input, seeded by the disagreements: each of the first disagreeing calls is made again, three times, as the
+        # very first calls of a fresh interpreter; answers that differ among themselves show state carried between calls
+        spath = os.path.join(d, "specs.json")
+        if mism and os.path.exists(spath):
+            try:
+                nspec = json.load(open(spath))
+            except Exception:  # noqa
+                nspec = []
+            tried = 0
+            for f, i in mism:
+                gi = f["first"] + i
+                if tried >= 6 or gi >= len(nspec) or nspec[gi] is None:
+                    continue
+                tried += 1
+                try:
+                    pr = subprocess.run([vlib.PY, os.path.join(vlib.VERIF, "corr", "evalspec.py"), spath, "--twice", str(gi)], env=vlib.impl_env(),
+                                        capture_output=True, text=True, timeout=300)
+                    rs = json.loads(pr.stdout) if pr.returncode == 0 else None
+                except Exception:  # noqa
+                    rs = None
+                self.direct["evaluations"] += 3
+                if rs and any(r != rs[0] for r in rs[1:]):
+                    case = self._case(meta, f, i)
+                    self.violations.append({"kind": "direct", "driver": meta["driver"],
+                                            "desc": "%s: the same call answers differently the first, second and third time it is made in a fresh interpreter (state carried between calls): %s" % (self.prop, case.get("desc", "")),
+                                            "input": dict(case.get("input") or {}, note="made three times as the first calls of a fresh interpreter"),
+                                            "got": {"answers": [str(r[0])[:300] for r in rs]}})
+                    break
         # explain the first few disagreements
         for f, i in mism[:5]:
             case = self._case(meta, f, i)
